@@ -412,6 +412,12 @@ Definition gg_guard_gnd (args : list Z) : bool :=
   | [n; d] => (0 <? n) && (0 <? d) && (d <=? n) && negb ((n * d) mod 2 =? 1)
   | _ => false
   end.
+(* the documented requirement N > d (repaired guard) *)
+Definition gg_guard_gnd_spec (args : list Z) : bool :=
+  match args with
+  | [n; d] => (0 <? n) && (0 <? d) && (d <? n) && negb ((n * d) mod 2 =? 1)
+  | _ => false
+  end.
 (* ints: [n] or [n; t]; p_ok: float(p) succeeded and 0 <= p <= 1 *)
 Definition gg_guard_gnp (ints : list Z) (p_ok : bool) : bool :=
   match ints with
